@@ -30,7 +30,6 @@ theorem dictWordOk_encTLV (v : Val) (hk : dictKind v) (hw : wfDec v) : DictWordO
     rw [encTLV_str_wf s h2]
     have hr : rdN 2 (leN 2 s.length ++ (s ++ r)) = some (s.length, s ++ r) := rdN_leN 2 _ _ (by simpa using h2)
     simp [dictWordLen, hr, leN_length]
-    rw [Nat.mod_eq_of_lt (by omega)]
     omega
   | bool b => simp [dictWordLen, encTLV, tags]
   | backfill => simp [dictWordLen, encTLV, tags]
